@@ -12,6 +12,7 @@
     graph_disabled_completes_only_without_code graph_disabled_reachable_code_fails
     graph_disabled_raises_syntax_error graph_loader_off_only_root_runs
     ctor_forwards_flag loader_forwards_flag include_forwards_flag plugin_forwards_flag
+    node_characterised exec_iff_governing_flag_on
     markup_parse_flag_only_at_code markup_parse_off_no_exec markup_parse_off_rejects
     markup_parse_off_error_kind text_parse_flag_only_at_code text_parse_off_no_exec
     text_parse_off_rejects
@@ -105,6 +106,146 @@ theorem plugin_forwards_flag (p : Plugin) (b : Bool) :
     ∃ c, pluginCls p = some c ∧
       pluginByFlag p b = some ⟨if b then .allow else .deny, fate c b, some b, some b, fate c b, some b, some b⟩ := by
   cases p <;> cases b <;> exact ⟨_, rfl, by decide +kernel⟩
+
+/-! ### code runs exactly when the governing flag is on -/
+
+/-- the flag the root template itself is instantiated with -/
+def rootFlag (cfg : Config) : Root → Option Bool
+  | .direct _ _ _ => some (want cfg.tmpl)
+  | .load _ _ => some (want cfg.loader)
+  | .pluginFile _ | .pluginString _ =>
+      match parseOpt cfg.opt with
+      | .allow => some true
+      | .deny => some false
+      | _ => none
+
+/-- the flag of the loader the root holds — the flag everything below the root is instantiated
+    with -/
+def heldFlag (cfg : Config) : Root → Option Bool
+  | .direct _ _ true => some (want cfg.tmpl)
+  | .direct _ _ false => some (want cfg.loader)
+  | r => rootFlag cfg r
+
+/-- the flag that governs the template reached by `r` -/
+def governing (cfg : Config) : Reach → Option Bool
+  | .root r => rootFlag cfg r
+  | .incl parent _ => heldFlag cfg parent.rootOf
+
+theorem inclStep_some (c : Cls) (p : Parse) (lf ar : Bool) (x : Cls × Verdict × Bool)
+    (h : inclStep c p lf ar = some x) : c = .markup ∨ p = .same := by
+  cases c <;> cases p <;> cases lf <;> cases ar <;> simp [inclStep] at h <;> simp
+
+theorem srcOk_of_some (c : Cls) (s : Src) (q : Req) (ld : Option Req) (b : Bool)
+    (h : directLoaderFlag c s q ld = some b) : srcOk c s = true := by
+  have := (directFlag_isSome c s q ld).2
+  rw [h] at this
+  exact this.symm
+
+/-- **complete characterisation of the reachability model**: wherever a template is reached, the
+    loader it holds carries the root's held flag, and a code block in it meets the fate of its
+    class under the governing flag — the constructor / loader / plugin flag for the root, the held
+    loader's flag for everything included, at any depth -/
+theorem node_characterised (cfg : Config) (r : Reach) (n : Node) (h : node cfg r = some n) :
+    heldFlag cfg r.rootOf = some n.loaderFlag ∧
+    ∃ g, governing cfg r = some g ∧ n.verdict = fate n.cls g := by
+  induction r generalizing n with
+  | root r0 =>
+      cases r0 with
+      | direct c s own =>
+          simp only [node, rootNode] at h
+          cases hl : directLoaderFlag c s cfg.tmpl (if own = true then none else some cfg.loader) with
+          | none => rw [hl] at h; cases h
+          | some lf =>
+              rw [hl] at h
+              cases h
+              have hs := srcOk_of_some c s _ _ lf hl
+              obtain ⟨_, h2, h3⟩ := ctor_forwards_flag c s cfg.tmpl (if own = true then none else some cfg.loader) hs
+              rw [hl] at h2
+              cases own with
+              | true => exact ⟨by simpa [heldFlag, Reach.rootOf] using h2.symm, _, rfl, h3⟩
+              | false => exact ⟨by simpa [heldFlag, Reach.rootOf] using h2.symm, _, rfl, h3⟩
+      | load c d =>
+          simp only [node, rootNode] at h
+          obtain ⟨_, _, h3, h4⟩ := loader_forwards_flag c d cfg.loader
+          rw [h3] at h
+          cases h
+          exact ⟨rfl, _, rfl, h4⟩
+      | pluginFile p =>
+          simp only [node, rootNode] at h
+          obtain ⟨c, hc, hrow⟩ := plugin_forwards_flag p true
+          obtain ⟨c', hc', hrow'⟩ := plugin_forwards_flag p false
+          rw [hc] at hc'; cases hc'
+          cases hp : parseOpt cfg.opt with
+          | allow =>
+              simp only [hp, hc, hrow, Option.bind_some, Option.map_some] at h
+              cases h
+              exact ⟨by simp [heldFlag, rootFlag, Reach.rootOf, hp], true, by simp [governing, rootFlag, hp], rfl⟩
+          | deny =>
+              simp only [hp, hc, hrow', Option.bind_some, Option.map_some] at h
+              cases h
+              exact ⟨by simp [heldFlag, rootFlag, Reach.rootOf, hp], false, by simp [governing, rootFlag, hp], rfl⟩
+          | confError => simp [hp] at h
+          | failed => simp [hp] at h
+      | pluginString p =>
+          simp only [node, rootNode] at h
+          obtain ⟨c, hc, hrow⟩ := plugin_forwards_flag p true
+          obtain ⟨c', hc', hrow'⟩ := plugin_forwards_flag p false
+          rw [hc] at hc'; cases hc'
+          cases hp : parseOpt cfg.opt with
+          | allow =>
+              simp only [hp, hc, hrow, Option.bind_some, Option.map_some] at h
+              cases h
+              exact ⟨by simp [heldFlag, rootFlag, Reach.rootOf, hp], true, by simp [governing, rootFlag, hp], rfl⟩
+          | deny =>
+              simp only [hp, hc, hrow', Option.bind_some, Option.map_some] at h
+              cases h
+              exact ⟨by simp [heldFlag, rootFlag, Reach.rootOf, hp], false, by simp [governing, rootFlag, hp], rfl⟩
+          | confError => simp [hp] at h
+          | failed => simp [hp] at h
+  | incl parent p ih =>
+      simp only [node] at h
+      cases hp : node cfg parent with
+      | none => rw [hp] at h; cases h
+      | some m =>
+          rw [hp] at h
+          simp only [Option.bind_some, step] at h
+          obtain ⟨hheld, _⟩ := ih m hp
+          cases hi : inclStep m.cls p m.loaderFlag m.autoReload with
+          | none => rw [hi] at h; cases h
+          | some x =>
+              have hcp := inclStep_some _ _ _ _ x hi
+              rw [include_forwards_flag m.cls p m.loaderFlag m.autoReload hcp] at hi
+              cases hi
+              rw [include_forwards_flag m.cls p m.loaderFlag m.autoReload hcp] at h
+              cases h
+              exact ⟨hheld, m.loaderFlag, by simpa [governing, Reach.rootOf] using hheld, rfl⟩
+
+/-- **code runs exactly when the governing flag is on** (and the class has code blocks at all):
+    both directions, for every configuration — mixed ones included — and every reach -/
+theorem exec_iff_governing_flag_on (cfg : Config) (r : Reach) :
+    execAllowed cfg r = true ↔
+      ∃ n, node cfg r = some n ∧ n.cls ≠ .oldtext ∧ governing cfg r = some true := by
+  unfold execAllowed
+  constructor
+  · intro h
+    cases hn : node cfg r with
+    | none => rw [hn] at h; cases h
+    | some n =>
+        rw [hn] at h
+        obtain ⟨_, g, hg, hv⟩ := node_characterised cfg r n hn
+        have hv' : n.verdict = .exec := by simpa using h
+        rw [hv'] at hv
+        refine ⟨n, rfl, ?_, ?_⟩
+        · intro hc; simp [fate, hc] at hv
+        · cases g with
+          | true => exact hg
+          | false => by_cases hc : n.cls = .oldtext <;> simp [fate, hc] at hv
+  · rintro ⟨n, hn, hc, hg⟩
+    rw [hn]
+    obtain ⟨_, g, hg', hv⟩ := node_characterised cfg r n hn
+    rw [hg] at hg'
+    cases hg'
+    simp [hv, fate, hc]
 
 /-! ### the property (reachability model over the generated tables) -/
 
